@@ -5,14 +5,15 @@ META = {
     'level_text': 'Proof by composition of function contracts, each discharged here for all shapes / offsets: (1) Plane.multiply multiplies the total field by the SUM over segments of amplitude*mask_n*exp(i phase) at every plane coordinate, each cropped phasor carrying the offset that keeps its global coordinates (slice_offset, boundary_slice contain the support); (2) for masks that partition a global mask that sum is the monolithic phasor (algebra, k = 2..4); (3) propagate_dft evaluates, for every Field, the Fraunhofer sum at global coordinates (dft2 offset argument) on windows that do not change evaluated values; (4) overlapping output fields are added as complex amplitudes before |.|^2 (reduce merges overlapping fields, Wavefront.intensity = |field|^2, collections of up to 3 fields). The step from per-field sums to the sum over the embedding (re-indexing and zero-extension of a finite sum, linearity) is a lemma about the spec sums, assumed and validated by the bounded native stand-in that compares segmented and monolithic descriptions through the real Plane / Wavefront / propagate path.',
     'level_note': 'Assumed math lemma L5: a finite sum over a sub-array with offset equals the sum over the whole plane of the zero-extended embedding; linearity of finite sums. Known finding (C06/C07 family): a segment or product with exactly one element. A2 reals.',
 }
-FUNCTIONS = ['lentil.plane.Plane.multiply#two-segments', 'lentil.plane.Plane.multiply#arrays', 'lentil.plane.Plane.multiply#two-fields',
+FUNCTIONS = ['lentil.plane.Plane.multiply#two-segments', 'lentil.plane.Plane.multiply#two-segments-scalars',
+             'lentil.plane.Plane.multiply#scalar-amplitude', 'lentil.plane.Plane.multiply#scalar-opd', 'lentil.plane.Plane.multiply#arrays', 'lentil.plane.Plane.multiply#two-fields',
              'lentil.helper.slice_offset', 'lentil.helper.boundary_slice', 'lentil.propagate.propagate_dft',
              'lentil.propagate.propagate_dft#2', 'lentil.fourier.dft2', 'lentil.field.reduce#2', 'lentil.field.reduce#3',
              'lentil.field._merge#2', 'lentil.field._merge#3', 'lentil.wavefront.Wavefront.intensity#2',
              'lentil.wavefront.Wavefront.intensity#3', 'lentil.wavefront.Wavefront.field#2', 'lentil.extent.intersect',
              'lentil.extent.intersection_slices', 'lentil.extent.intersection_shift', 'lentil.field.Field.__mul__']
 LEMMAS = list(_s.LEMMAS)
-SHARDS = {'lentil.plane.Plane.multiply#two-segments': 8, 'lentil.plane.Plane.multiply#two-fields': 8,
+SHARDS = {'lentil.plane.Plane.multiply#two-segments': 8, 'lentil.plane.Plane.multiply#two-segments-scalars': 8, 'lentil.plane.Plane.multiply#two-fields': 8,
           'lentil.plane.Plane.multiply#arrays': 2, 'lentil.propagate.propagate_dft#2': 6}
 TRUSTED = ['math lemma L5: sub-array sum with offset = whole-plane sum of the zero-extended embedding; linearity of finite sums']
 
